@@ -257,3 +257,60 @@ func c19CheckInvalidated(o *world.Obs, r *Result, ex *world.Exchange, target str
 		}
 	}
 }
+
+// C19Crash: the process died (fault kind "crash") inside a successful unsafe exchange. For every
+// URI the exchange invalidates: if its index is gone, nothing that was reachable from that index
+// before may still be stored (it would be unreachable for ever).
+func C19Crash(o *world.Obs) *Result {
+	r := NewResult()
+	for _, ex := range o.Exchanges {
+		if !strings.Contains(ex.Panic, world.CrashSentinel) {
+			if ex.Panic != "" {
+				r.Fail("C19", "panic", ex.Idx, "panic: %s", firstLine(ex.Panic))
+			}
+			continue
+		}
+		r.NonTrivial = true
+		r.Label("crash-in-exchange")
+		if ex.Step >= len(o.Keys) {
+			continue
+		}
+		live := map[string]bool{}
+		for _, k := range o.Keys[ex.Step] {
+			live[k] = true
+		}
+		// every index that existed before the exchange: key -> ids it listed
+		idx := map[string][]string{}
+		for _, op := range o.Ops {
+			if op.Seq >= ex.StartSeq {
+				break
+			}
+			if op.Op == "set" && op.Err == "" && len(op.Val) > 0 && op.Val[0] == '[' {
+				var refs []struct {
+					ID string `json:"id"`
+				}
+				if json.Unmarshal(op.Val, &refs) == nil {
+					ids := make([]string, 0, len(refs))
+					for _, x := range refs {
+						ids = append(ids, x.ID)
+					}
+					idx[op.Key] = ids
+				}
+			} else if op.Op == "delete" && op.Err == "" {
+				delete(idx, op.Key)
+			}
+		}
+		for key, ids := range idx {
+			if live[key] {
+				continue // index still there: its entries are still reachable
+			}
+			for _, id := range ids {
+				if live[id] {
+					r.Fail("C19", "crash-leaves-unreachable-key", ex.Idx, "the process died inside the %s on %s after deleting the index %q; the entry %q it referenced is still stored and can never be reached or removed", ex.Req.Method, ex.Req.URL, key, id)
+					return r
+				}
+			}
+		}
+	}
+	return r
+}
